@@ -16,7 +16,7 @@ ASSUMPTIONS = ['O-sat as in C03 with the order [[Version::cmp]] (= O-order by C0
 def groups(tier):
     K = 2 if tier == 'quick' else 4
     L = 1 if tier == 'quick' else 2
-    gs = [{'name': 'min-K%d-L%d' % (k, L if k < 3 else 1), 'fn': min_group, 'args': {'k': k, 'L': L if k < 3 else 1}} for k in range(1, K + 1)]
+    gs = [{'name': 'min-K%d-L%d' % (k, L if k < 4 else 1), 'fn': min_group, 'args': {'k': k, 'L': L if k < 4 else 1}} for k in range(1, K + 1)]
     gs.append(validation_group(('min_version',), tier))
     return gs
 
